@@ -162,6 +162,17 @@ func (f *fieldSelectionMergingVisitor) EnterField(ref int) {
 				}
 			}
 
+			// FieldsInSetCanMerge: two fields with the same response name whose parents can be the same
+			// object must be the same field with identical arguments, whatever they return
+			if f.potentiallySameObject(f.nonScalarRequirements[i].enclosingTypeDefinition, f.EnclosingTypeDefinition) {
+				left := f.nonScalarRequirements[i].fieldRef
+				if !bytes.Equal(f.operation.FieldNameBytes(left), fieldName) ||
+					!f.operation.ArgumentSetsAreEquals(f.operation.FieldArguments(left), f.operation.FieldArguments(ref)) {
+					f.StopWithExternalErr(operationreport.ErrDifferingFieldsOnPotentiallySameType(objectName))
+					return
+				}
+			}
+
 			if fieldDefinitionTypeNode.Kind != f.nonScalarRequirements[i].fieldTypeDefinitionNode.Kind {
 				hasDifferentKindInRequirements = true
 			}
